@@ -483,6 +483,17 @@ impl Visit for Analyzer<'_> {
     });
   }
 
+  /// A static initialization block runs in the middle of the expression or
+  /// declaration its class belongs to. Like a function body, it is analyzed on
+  /// its own: how it ends says nothing about the statement the class is
+  /// written in, and that statement may be a loop head that is not even
+  /// evaluated in source order.
+  fn visit_static_block(&mut self, n: &StaticBlock) {
+    self.with_child_scope(BlockKind::Function, n.start(), |a| {
+      n.visit_children_with(a);
+    })
+  }
+
   fn visit_getter_prop(&mut self, n: &GetterProp) {
     self.with_child_scope(BlockKind::Function, n.start(), |a| {
       n.visit_children_with(a);
